@@ -6,7 +6,11 @@ use serde_json::{json, Map, Value};
 use std::path::PathBuf;
 use std::time::Instant;
 
+pub mod c01;
 pub mod c02;
+pub mod c03;
+pub mod explore;
+pub mod c08;
 pub mod c16;
 pub mod common;
 
@@ -179,7 +183,22 @@ impl<'a> Acc<'a> {
                 .find(|l| l.contains("overflowed its stack") || l.contains("panicked") || l.contains("ERROR"))
                 .unwrap_or("")
                 .to_owned();
-            let sig = format!("abort: {} {}", c.status, clip(&first, 100));
+            // Strip thread ids ("(12345)") so that the signature is stable.
+            let mut norm = String::new();
+            let mut depth = 0;
+            for ch in first.chars() {
+                match ch {
+                    '(' => depth += 1,
+                    ')' => {
+                        if depth > 0 {
+                            depth -= 1
+                        }
+                    }
+                    c if depth == 0 => norm.push(c),
+                    _ => {}
+                }
+            }
+            let sig = format!("abort: {} {}", c.status, clip(norm.trim(), 100));
             if abort_is_violation {
                 self.violation(
                     &sig,
@@ -319,6 +338,16 @@ pub fn workload(name: &str, tier: &str) -> Option<Box<dyn Workload>> {
     let quick = tier == "quick";
     match name {
         "c16" => Some(Box::new(c16::Positions::new(quick))),
+        "explore" => Some(Box::new(c01::Explore {
+            n: if quick { 40_000 } else { 1_000_000 },
+        })),
+        "c01depth" => Some(Box::new(c01::Depth)),
+        "c03" => Some(Box::new(c03::Docs {
+            n: if quick { 40_000 } else { 1_000_000 },
+        })),
+        "c08" => Some(Box::new(c08::Binding {
+            n: if quick { 5000 } else { 200_000 },
+        })),
         "c02" => Some(Box::new(c02::Wt {
             n: if quick { 6000 } else { 200_000 },
             cfg: c02::wt_cfg(),
@@ -330,7 +359,10 @@ pub fn workload(name: &str, tier: &str) -> Option<Box<dyn Workload>> {
 pub fn run_check(ctx: &Ctx) -> i32 {
     match ctx.id.as_str() {
         "C16" => c16::run(ctx),
+        "C01" => c01::run(ctx),
         "C02" => c02::run(ctx),
+        "C03" => c03::run(ctx),
+        "C08" => c08::run(ctx),
         other => {
             println!("unknown check {other}");
             2
